@@ -144,6 +144,45 @@ fn normalise_stderr(s: &str) -> String {
         .join("\n")
 }
 
+/// Run the invocation a (fault-free-environment) trace describes, without judging it.
+fn raw_invocation(trace: &Value) -> Option<CliOut> {
+    let strs = |v: &Value| -> Vec<String> {
+        v.as_array()
+            .map(|a| a.iter().filter_map(|x| x.as_str().map(|s| s.to_string())).collect())
+            .unwrap_or_default()
+    };
+    let file_lines = strs(&trace["file_lines"]);
+    let e_lines = strs(&trace["e_lines"]);
+    let channel = trace["channel"].as_str().unwrap_or("file");
+    let mut args: Vec<String> = strs(&trace["flags"]);
+    let mut files: BTreeMap<String, Vec<u8>> = BTreeMap::new();
+    match trace["config"].as_str() {
+        Some(c) => {
+            files.insert("cfg/numbat/config.toml".into(), c.as_bytes().to_vec());
+        }
+        None => args.push("--no-config".into()),
+    }
+    if let Some(i) = trace["init"].as_str() {
+        files.insert("cfg/numbat/init.nbt".into(), i.as_bytes().to_vec());
+    }
+    if channel == "e" || channel == "split" {
+        for l in &e_lines {
+            args.push("-e".into());
+            args.push(l.clone());
+        }
+    }
+    if channel == "file" || channel == "split" {
+        files.insert("run/script.nbt".into(), (file_lines.join("\n") + "\n").into_bytes());
+        args.push("script.nbt".into());
+    }
+    let out = run_cli(&args, &files, &[], trace["modules_path"].as_str().unwrap_or(crate::sess::MODULES_DIR));
+    if out.stderr.starts_with("HARNESS:") || out.timed_out {
+        None
+    } else {
+        Some(out)
+    }
+}
+
 const CONFIG_NEVER_FETCH: &str = "[exchange-rates]\nfetching-policy = \"never\"\n";
 
 /// Build the invocation described by a trace and check it against the by-construction model.
@@ -377,6 +416,46 @@ pub fn exec_trace(trace: &Value, res: &mut ExecResult) -> u64 {
         }
     }
 
+    // 3b. every diagnostic the library produced must reach stderr: with two syntax errors in the
+    // input (the library reported >= 2), removing the second one must change what is written
+    if faulty
+        && let Some(at2) = fault["second_parse_index"].as_u64()
+        && env_fault.is_empty()
+    {
+        let where_ = fault["where"].as_str().unwrap_or("file");
+        let mut t2 = trace.clone();
+        let key = if where_ == "file" { "file_lines" } else { "e_lines" };
+        if let Some(a) = t2[key].as_array_mut()
+            && (at2 as usize) < a.len()
+        {
+            a.remove(at2 as usize);
+            t2["fault"].as_object_mut().unwrap().remove("second_parse_index");
+            t2["check_equivalence"] = json!(false);
+            t2["e_groups"] = json!([]);
+            let mut t1 = trace.clone();
+            t1["e_groups"] = json!([]);
+            t1["fault"].as_object_mut().unwrap().remove("second_parse_index");
+            t1["check_equivalence"] = json!(false);
+            let both = raw_invocation(&t1);
+            let only_first = raw_invocation(&t2);
+            res.bump("cli_invocations");
+            res.bump("cli_invocations");
+            res.bump("checks.second_diagnostic_reaches_stderr");
+            if let (Some(a), Some(b)) = (both, only_first)
+                && a.stderr == b.stderr
+            {
+                res.fail(
+                    "diagnostics-dropped",
+                    format!(
+                        "the input has two syntax errors (the library reports {}), but standard error is the same as for the input with only the first one: {:?}; {}",
+                        fault["library_parse_errors"], a.stderr, describe()
+                    ),
+                );
+                return obs.0;
+            }
+        }
+    }
+
     // 4. channel equivalence: the same lines as a file and as -e arguments
     if trace["check_equivalence"].as_bool().unwrap_or(false) && !env_faulty && (channel == "file" || channel == "e") {
         let lines = if channel == "file" { &file_lines } else { &e_lines };
@@ -527,6 +606,7 @@ fn gen_trace(w: &mut SessWorker, rng: &mut Rng, res: &mut ExecResult) -> Option<
             }
         }
     }
+    let mut second_parse_at: Option<usize> = None;
     if with_fault {
         let kinds = if no_prelude {
             vec![FaultKind::Parse, FaultKind::UnknownModule, FaultKind::RuntimeError]
@@ -566,6 +646,7 @@ fn gen_trace(w: &mut SessWorker, rng: &mut Rng, res: &mut ExecResult) -> Option<
             if !later.is_empty() {
                 let at2 = *rng.pick(&later);
                 tl.insert(at2, "let = 3".to_string());
+                second_parse_at = Some(at2);
             }
         }
         // learn the stage from the library (and make sure the input really fails)
@@ -587,6 +668,12 @@ fn gen_trace(w: &mut SessWorker, rng: &mut Rng, res: &mut ExecResult) -> Option<
             return None;
         }
         fault = json!({"where": if target_e {"e"} else {"file"}, "index": idx, "stage": stage, "kind": kind.name()});
+        if let Some(at2) = second_parse_at
+            && o.parse_errors >= 2
+        {
+            fault["second_parse_index"] = json!(at2);
+            fault["library_parse_errors"] = json!(o.parse_errors);
+        }
         last_is_expr = false;
     } else {
         // verify the whole script the way the binary will see it
@@ -798,8 +885,11 @@ impl Prop for C22 {
                             t["fault"]["index"] = json!(idx - removed);
                         }
                     }
-                    // last_is_expr can no longer be trusted
+                    // last_is_expr can no longer be trusted; indices of a second syntax error neither
                     t["last_is_expr"] = json!(false);
+                    if let Some(o) = t["fault"].as_object_mut() {
+                        o.remove("second_parse_index");
+                    }
                     out.push(t);
                 }
             }
@@ -850,6 +940,7 @@ impl Prop for C22 {
             "fault.cli-io.good-init",
             "fault.cli-io.modules-path-nowhere",
             "checks.channel_equivalence",
+            "checks.second_diagnostic_reaches_stderr",
             "probe.multi_line_e_argument",
             "probe.blank_line_or_empty_e_argument",
             "flag.--no-prelude",
